@@ -220,7 +220,14 @@ impl Check for C06 {
                                 out.violate("missing-repair", &mtags, format!("{} minimum-cost repair(s) with best reach are not reported, e.g. [{}]", missing.len(), pp_seq(&b.grm, missing[0])), edetail(format!("reference set: {}", refset.iter().map(|s| pp_seq(&b.grm, s)).collect::<Vec<_>>().join(" | "))));
                             }
                             if !extra.is_empty() {
-                                out.violate("extra-repair", &[], format!("{} reported sequence(s) are not in the reference set (not valid, not minimal or not best reach), e.g. [{}]", extra.len(), pp_seq(&b.grm, extra[0])), edetail(format!("reference set: {}", refset.iter().map(|s| pp_seq(&b.grm, s)).collect::<Vec<_>>().join(" | "))));
+                                // plain-valid, minimum cost, but not best reach under plain replay: kept by the ranking
+                                // because, under the search's semantics, merged with a best-reach sequence?
+                                let etags: Vec<&str> = if conflict_table && extra.iter().all(|x| merges_with_best_reach_sequence(b, &rc.st, &toks, &cx.cfg, cx.pos, x, &refset)) {
+                                    vec!["each_extra_sequence_merges_with_a_best_reach_sequence_under_the_search_semantics", "table_has_resolved_conflicts"]
+                                } else {
+                                    vec![]
+                                };
+                                out.violate("extra-repair", &etags, format!("{} reported sequence(s) are not in the reference set (not valid, not minimal or not best reach), e.g. [{}]", extra.len(), pp_seq(&b.grm, extra[0])), edetail(format!("reference set: {}", refset.iter().map(|s| pp_seq(&b.grm, s)).collect::<Vec<_>>().join(" | "))));
                             }
                         }
                     }
